@@ -146,7 +146,12 @@ def instances(tier):
         if not any(i.name == nm for i in out):
             out.append(inst(nm, h_insert_remove, timeout=timeout, sp=sp, d=d, r=r, r2=r2, via=via, after_sibling=after_sibling))
 
+    add(spec('curve', (2,), ((1, 1),), rational=False, shifted=True), 0, 1, 1)
+    add(spec('curve', (3,), ((2,),), rational=True, shifted=True), 0, 1, 1, via='method')
+    add(spec('surface', (1, 2), ((1,), (1,)), rational=False, shifted=True), 1, 2, 2, timeout=1200)
     add(spec('curve', (2,), ((1,),), rational=False), 0, 1, 1, after_sibling=True)
+    add(spec('curve', (2,), ((1, 1),), rational=False), 0, 1, 1, after_sibling=True)
+    add(spec('curve', (3,), ((1, 1, 1),), rational=False), 0, 2, 2, after_sibling=True)
     add(spec('curve', (3,), ((1,),), rational=True), 0, 2, 2, via='method', after_sibling=True)
     add(spec('surface', (1, 2), ((1,), ()), rational=False), 1, 1, 1, after_sibling=True)
     add(spec('surface', (2, 1), ((), (1,)), rational=True), 0, 1, 1, after_sibling=True)
